@@ -1,4 +1,5 @@
 import DateutilVerif.Properties.C08
+import DateutilVerif.Properties.C08Abbr   -- fix D-C08b: accepted strings have letter abbreviations
 import DateutilVerif.Properties.C08NoRule   -- strings without a rule part: the default-rule branch of tzstr._delta
 import DateutilVerif.Properties.C08Pure   -- one object, many calls: answers are a function of the constructor arguments and the query
 import DateutilVerif.Properties.TzGen   -- translator tie (wt-iso): obligations about the re-translated lookup functions
@@ -47,3 +48,5 @@ import DateutilVerif.Properties.TzObjGen   -- translator tie (wt-iso): tzrange/t
 #print axioms C08.default_end_seconds
 #print axioms C08.tzstr_norule_zone
 #print axioms C08.tzstr_norule_posix
+#print axioms C08.abbr_run_is_letters
+#print axioms C08.tzstr_abbr_letters
